@@ -4,6 +4,7 @@
 //! harness can run them on generated inputs. Nothing here is used by the
 //! crate itself; with the cfg flag off this module does not exist.
 
+pub mod arena;
 pub mod bpt;
 pub mod compaction;
 pub mod damage;
